@@ -656,6 +656,7 @@ def wrapper_victims(kind):
     for f in ('user', 'desc', 'ext'):
         vs.append(('longmeta', f))
     vs.append(('conflict',))
+    vs.append(('finish-callback',))
     for when in ('idle', 'store', 'vote'):
         vs.append(('stray', when, False))
         if blob and when != 'idle':
@@ -769,6 +770,19 @@ def wrapper_scenario(kind, v):
                          '', t)
                 if not (isinstance(r, Exc) and r.name == 'ConflictError'):
                     bad('step', 'conflict-not-raised', dict(got=repr(r)))
+                s.tpc_abort(t)
+            elif kindv == 'finish-callback':
+                s.tpc_begin(t)
+                s.store(p64(7), Z64, hclasses.mkrec('P', 7), '', t)
+                s.tpc_vote(t)
+
+                def boom(tid):
+                    raise RuntimeError('scripted failure in the callback')
+                r = call(s.tpc_finish, t, boom)
+                if not (isinstance(r, Exc) and r.name == 'RuntimeError'):
+                    bad('step', 'finish-callback:%s' % (
+                        r.name if isinstance(r, Exc) else 'swallowed'),
+                        dict(got=repr(r)[:100]))
                 s.tpc_abort(t)
             elif kindv == 'stray':
                 _, when, withblob = v
